@@ -450,4 +450,54 @@ theorem decBody_encBody (env : Env) (CRep : CustomId → List Val → Prop) (LW 
           simp only [decTail, hk, stripNul_no_nul e ht.2 k]
           cases v; simp_all
 
+/-- in-domain IS_MSO values: bytes, a known user type, NUL-free name and message that fit the 128-byte text -/
+def RepMso (v : PVal) : Prop :=
+  ∃ reqi ucid plid ut name msg,
+    v = { vals := [.n reqi, .n ucid, .n plid, .n ut, .b name, .b msg], tail := .none } ∧
+    reqi < 256 ∧ ucid < 256 ∧ plid < 256 ∧ memN ut msoUserTypes = true ∧
+    (0 : Nat) ∉ name ∧ (0 : Nat) ∉ msg ∧ name.length + msg.length ≤ 128
+
+theorem memN_lt (ut : Nat) (h : memN ut msoUserTypes = true) : ut < 256 := by
+  simp only [msoUserTypes, memN] at h
+  revert h
+  simp only [Bool.or_eq_true, Bool.or_false]
+  intro h
+  rcases h with h | h | h | h <;> (have := Nat.eq_of_beq_eq_true h; omega)
+
+/-- **the hand-written IS_MSO body round-trips** -/
+theorem decMso_encMso (v : PVal) (hr : RepMso v) (bs : Bytes) (he : encMso v = .ok bs) : decMso bs = .ok v := by
+  obtain ⟨reqi, ucid, plid, ut, name, msg, rfl, h1, h2, h3, h4, h5, h6, h7⟩ := hr
+  simp only [encMso] at he
+  injection he with he; subst he
+  have hut := memN_lt ut h4
+  obtain ⟨k, hk⟩ := writeStr_fits 128 4 (name ++ msg) (by rw [List.length_append]; exact h7)
+  have hnl : name.length % 256 = name.length := Nat.mod_eq_of_lt (by omega)
+  simp only [List.cons_append, List.nil_append, decMso, Nat.mod_eq_of_lt h1, Nat.mod_eq_of_lt h2, Nat.mod_eq_of_lt h3,
+    Nat.mod_eq_of_lt hut, h4, if_true, hnl, hk]
+  by_cases hn : name.length > 0
+  · have hlen : ¬ ((name ++ msg ++ List.replicate k 0).length < name.length) := by simp
+    have e1 : (name ++ msg ++ List.replicate k 0).take name.length = name := by
+      rw [List.append_assoc]; exact List.take_left' rfl
+    have e2 : (name ++ msg ++ List.replicate k 0).drop name.length = msg ++ List.replicate k 0 := by
+      rw [List.append_assoc]; exact List.drop_left' rfl
+    have s1 : stripNul name = name := by
+      have := stripNul_no_nul name h5 0; simpa using this
+    simp only [hn, if_true, hlen, if_false, e1, e2, s1, stripNul_no_nul msg h6 k]
+  · have hn0 : name = [] := List.length_eq_zero_iff.mp (by omega)
+    subst hn0
+    simp only [List.length_nil, Nat.lt_irrefl, if_false, List.nil_append, stripNul_no_nul msg h6 k, gt_iff_lt]
+
+/-- every body shape, the hand-written one included -/
+def RepAnyBody (CRep : CustomId → List Val → Prop) (L : Layout) (v : PVal) : Prop :=
+  (L.customBody = false ∧ RepBody CRep L v) ∨ (L.customBody = true ∧ RepMso v)
+
+theorem decBody_encBody_any (env : Env) (CRep : CustomId → List Val → Prop) (LW : CustomLawful env CRep)
+    (L : Layout) (hwf : L.wf = true) (v : PVal) (bs : Bytes)
+    (hr : RepAnyBody CRep L v) (he : encBody env L v = .ok bs) : decBody env L bs = .ok v := by
+  rcases hr with ⟨hb, hr⟩ | ⟨hb, hr⟩
+  · exact decBody_encBody env CRep LW L hb hwf v bs hr he
+  · simp only [encBody, hb, if_true] at he
+    simp only [decBody, hb, if_true]
+    exact decMso_encMso v hr bs he
+
 end Insim.Layout
